@@ -13,7 +13,8 @@ Local Open Scope Z_scope.
 Record SDInv (d : dstate) : Prop := mkSDInv {
   sd_root : forall s, In s (root (d_core d)) -> assocZ (sid s) (d_segdocs d) = Some (sdocs s);
   sd_used : forall k, In k (map fst (d_segdocs d)) -> In k (used_sids (d_core d));
-  sd_tnew : forall x, In x (all_tnew (inflight (d_core d))) -> ~ In x (map fst (d_segdocs d))
+  sd_tnew : forall x, In x (all_tnew (inflight (d_core d))) -> ~ In x (map fst (d_segdocs d));
+  sd_files : forall f, In f (d_files d) -> In f (used_sids (d_core d))
 }.
 
 Lemma SDInv_init : SDInv dinit.
@@ -133,15 +134,18 @@ Lemma SDInv_frame : forall d d',
   SDInv d -> d_segdocs d' = d_segdocs d ->
   (d_core d' = d_core d \/
    (root (d_core d') = [] /\ inflight (d_core d') = [] /\ used_sids (d_core d') = used_sids (d_core d))) ->
+  (forall f, In f (d_files d') -> In f (d_files d) \/ In f (used_sids (d_core d))) ->
   SDInv d'.
 Proof.
-  intros d d' S Hsd [Hc|[Hr [Hi Hu]]]; constructor; rewrite ?Hsd.
+  intros d d' S Hsd [Hc|[Hr [Hi Hu]]] Hf; constructor; rewrite ?Hsd.
   - rewrite Hc. exact (sd_root d S).
   - rewrite Hc. exact (sd_used d S).
   - rewrite Hc. exact (sd_tnew d S).
+  - rewrite Hc. intros f Hin. destruct (Hf f Hin) as [H|H]; [exact (sd_files d S f H) | exact H].
   - rewrite Hr. intros s [].
   - rewrite Hu. exact (sd_used d S).
   - rewrite Hi. intros x [].
+  - rewrite Hu. intros f Hin. destruct (Hf f Hin) as [H|H]; [exact (sd_files d S f H) | exact H].
 Qed.
 
 Lemma SDInv_core : forall ef d e d',
@@ -153,7 +157,7 @@ Proof.
   match type of H with (if ?c then _ else _) = _ => destruct c end; [|discriminate].
   injection H as H. subst d'.
   assert (Ic' := Inv_step _ _ _ (di_core ef d I Hup) Hs).
-  constructor; cbn [d_core d_segdocs].
+  constructor; cbn [d_core d_segdocs d_files].
   - apply register_segs_consistent; [exact (inv_sids_nodup _ Ic')|].
     intros s Hin. destruct (step_root_cases _ _ _ Hs s Hin) as [[cur [Hcur [H1 H2]]]|[Hn|Ht]].
     + right. rewrite H1, H2. exact (sd_root d S cur Hcur).
@@ -167,6 +171,7 @@ Proof.
       * exact (sd_tnew d S x Ht Hk).
       * exact (Hn (sd_used d S x Hk)).
     + exact (inv_tnew_root _ Ic' x Hx Hk).
+  - intros f Hf. exact (step_used_mono _ _ _ Hs f (sd_files d S f Hf)).
 Qed.
 
 Lemma rec_root_In : forall sd segs rr s, rec_root sd segs = Some rr -> In s rr ->
@@ -194,14 +199,16 @@ Proof.
   intros ef d d' I S H.
   destruct (recover_shape d d' H) as [n [r [Hup [En [Hr [Hfiles Hd]]]]]]. subst d'.
   assert (Hn := newest_In _ _ En).
-  unfold recovered. constructor; cbn [d_core d_segdocs root inflight used_sids all_tnew flat_map].
+  unfold recovered. constructor; cbn [d_core d_segdocs d_files root inflight used_sids all_tnew flat_map].
   - intros s Hs. destruct (rec_root_In _ _ _ s Hr Hs) as [H1 H2].
+    apply (Permutation_in _ (sort_segs_named (br_segs n))) in H2. fold (named_by n) in H2.
     rewrite (assocZ_filter_keep (fun z => mem_id z (named_files d))); [exact H1|].
     apply mem_id_In. apply In_named_files. split; [exact (Hfiles _ H2)|].
     exists n. split; [exact Hn | exact H2].
   - intros k Hk. apply (In_filter_keys (fun z => mem_id z (named_files d))) in Hk.
     apply mem_id_In. exact (proj1 Hk).
   - intros x [].
+  - intros f Hf. exact Hf.
 Qed.
 
 Lemma SDInv_step : forall ef d ev d',
@@ -209,32 +216,52 @@ Lemma SDInv_step : forall ef d ev d',
 Proof.
   intros ef d ev d' I S H. destruct ev.
   - exact (SDInv_core ef d e d' I S H).
-  - need_up H Hup. injection H as H. subst d'. apply (SDInv_frame d); [exact S | reflexivity | left; reflexivity].
+  - need_up H Hup. injection H as H. subst d'.
+    apply (SDInv_frame d); [exact S | reflexivity | left; reflexivity |].
+    cbn [d_files]. intros f Hf. destruct (mem_id sid (d_files d)); [left; exact Hf|].
+    destruct Hf as [Hf|Hf]; [right; subst f; apply mem_id_In; exact Halloc | left; exact Hf].
   - need_up H Hup. destruct (d_tx d); [discriminate|].
     destruct (assocZ (br_epoch r) (d_pub d)) as [[? ?]|]; [|discriminate].
     destruct (rec_root (d_segdocs d) (br_segs r)); [|discriminate].
     match type of H with (if ?c then _ else _) = _ => destruct c end; [|discriminate].
-    injection H as H. subst d'. apply (SDInv_frame d); [exact S | reflexivity | left; reflexivity].
+    injection H as H. subst d'.
+    apply (SDInv_frame d); [exact S | reflexivity | left; reflexivity | intros f Hf; left; exact Hf].
   - need_up H Hup. destruct (d_tx d); [|discriminate].
     match type of H with (if ?c then _ else _) = _ => destruct c end; [|discriminate].
-    injection H as H. subst d'. apply (SDInv_frame d); [exact S | reflexivity | left; reflexivity].
+    injection H as H. subst d'.
+    apply (SDInv_frame d); [exact S | reflexivity | left; reflexivity | intros f Hf; left; exact Hf].
   - need_up H Hup.
     match type of H with (if ?c then _ else _) = _ => destruct c end; [|discriminate].
-    injection H as H. subst d'. apply (SDInv_frame d); [exact S | reflexivity | left; reflexivity].
+    injection H as H. subst d'.
+    apply (SDInv_frame d); [exact S | reflexivity | left; reflexivity | intros f Hf; left; exact Hf].
   - need_up H Hup. destruct (newest (d_bolt d)); [|discriminate].
     match type of H with (if ?c then _ else _) = _ => destruct c end; [discriminate|].
-    injection H as H. subst d'. apply (SDInv_frame d); [exact S | reflexivity | left; reflexivity].
+    injection H as H. subst d'.
+    apply (SDInv_frame d); [exact S | reflexivity | left; reflexivity | intros f Hf; left; exact Hf].
   - need_up H Hup.
     match type of H with (if ?c then _ else _) = _ => destruct c end; [discriminate|].
-    injection H as H. subst d'. apply (SDInv_frame d); [exact S | reflexivity | left; reflexivity].
-  - need_up H Hup. injection H as H. subst d'. apply (SDInv_frame d); [exact S | reflexivity | left; reflexivity].
-  - need_up H Hup. injection H as H. subst d'. apply (SDInv_frame d); [exact S | reflexivity | left; reflexivity].
+    injection H as H. subst d'.
+    apply (SDInv_frame d); [exact S | reflexivity | left; reflexivity |].
+    cbn [d_files]. intros f Hf. apply filter_In in Hf. left. exact (proj1 Hf).
+  - (* DMergeAbort *)
+    need_up H Hup. injection H as H. subst d'.
+    constructor; cbn [d_core d_segdocs d_files root inflight used_sids].
+    + exact (sd_root d S).
+    + exact (sd_used d S).
+    + intros x Hx. apply (sd_tnew d S). unfold all_tnew in *. exact (In_flat_map_filter _ _ _ x Hx).
+    + exact (sd_files d S).
+  - need_up H Hup. injection H as H. subst d'.
+    apply (SDInv_frame d); [exact S | reflexivity | left; reflexivity | intros f Hf; left; exact Hf].
+  - need_up H Hup. injection H as H. subst d'.
+    apply (SDInv_frame d); [exact S | reflexivity | left; reflexivity | intros f Hf; left; exact Hf].
   - cbn [dstep] in H. injection H as H. subst d'.
-    apply (SDInv_frame d); [exact S | reflexivity | right; repeat split; reflexivity].
+    apply (SDInv_frame d); [exact S | reflexivity | right; repeat split; reflexivity
+                           | intros f Hf; left; exact Hf].
   - exact (SDInv_recover ef d d' I S H).
   - cbn [dstep] in H. destruct (d_up d); [discriminate|].
     match type of H with (if ?c then _ else _) = _ => destruct c end; [|discriminate].
-    injection H as H. subst d'. apply (SDInv_frame d); [exact S | reflexivity | left; reflexivity].
+    injection H as H. subst d'.
+    apply (SDInv_frame d); [exact S | reflexivity | left; reflexivity | intros f Hf; left; exact Hf].
 Qed.
 
 Lemma SDInv_run : forall evs ef d d',
@@ -301,16 +328,15 @@ Proof.
     rewrite Hrl. apply pairs_eqb_refl.
 Qed.
 
-(* no_name_reuse (I6), the part that holds of [dstep] as written: a freshly allocated segment id
-   is never registered, hence never named by a committed record or by the open transaction, and
-   never the id of a root segment or of a merge in flight.
-   GAP to the full statement ("... nor the name of any file on disk"): [DFileWritten] accepts ids
-   that were never allocated, so a complete file may pre-exist its segment:
-   [DFileWritten 1; DCore (EIntroduce 1 [(1, Some 10)] [])] is accepted. *)
-Theorem no_name_reuse_partial : forall evs d newsid b io d',
+(* no_name_reuse (I6): a freshly allocated segment id is not the name of any file on disk, is not
+   registered, hence not named by a committed record or by the open transaction, and is not the
+   id of a root segment or of a merge in flight.  (The first clause needs the enabling condition
+   of [DFileWritten]: only allocated ids are ever written.) *)
+Theorem no_name_reuse : forall evs d newsid b io d',
   drun dinit evs = Some d ->
   dstep d (DCore (EIntroduce newsid b io)) = Some d' -> batch_updates b <> [] ->
-  ~ In newsid (map fst (d_segdocs d))
+  ~ In newsid (d_files d)
+  /\ ~ In newsid (map fst (d_segdocs d))
   /\ (forall r, In r (d_bolt d) -> ~ In newsid (named_by r))
   /\ (forall r, d_tx d = Some r -> ~ In newsid (named_by r))
   /\ ~ In newsid (map sid (root (d_core d)))
@@ -338,6 +364,7 @@ Proof.
       cbn [map fst] in Hin. destruct Hin as [Hin|Hin].
       + subst x. exact (assocZ_In_keys _ _ _ E).
       + exact (IH r0 eq_refl Hin). }
+  split; [intros Hf; exact (Hfresh (sd_files d S _ Hf))|].
   split; [exact Hreg|]. split; [|split; [|split]].
   - intros r Hr. destruct (di_bolt _ d I r Hr) as [_ [_ [_ [rr [k [Hrr _]]]]]]. exact (Hnamed r rr Hrr).
   - intros r Hr. destruct (di_tx _ d I r Hr) as [_ [_ [_ [rr [k [Hrr _]]]]]]. exact (Hnamed r rr Hrr).
